@@ -69,8 +69,9 @@ def minimise(camp, entry, budget):
 def write_replay(camp, pid, entry, small, v, ev, info, tier, verif_seed):
     from . import render
 
-    os.makedirs(os.path.join(VERIF, "replays"), exist_ok=True)
-    path = os.path.join(VERIF, "replays", f"{pid}-{entry['seed']:016x}.json")
+    rdir = os.environ.get("VERIF_REPLAY_DIR") or os.path.join(VERIF, "replays")
+    os.makedirs(rdir, exist_ok=True)
+    path = os.path.join(rdir, f"{pid}-{entry['seed']:016x}.json")
     sources = {}
     for p in small["programs"]:
         try:
@@ -88,8 +89,9 @@ def write_replay(camp, pid, entry, small, v, ev, info, tier, verif_seed):
 
 
 def write_evidence(camp, pid, tier, verif_seed, merged, violations, known_hits, wall, extra=None):
-    os.makedirs(os.path.join(VERIF, "evidence"), exist_ok=True)
-    path = os.path.join(VERIF, "evidence", f"{pid}.json")
+    edir = os.environ.get("VERIF_EVIDENCE_DIR") or os.path.join(VERIF, "evidence")
+    os.makedirs(edir, exist_ok=True)
+    path = os.path.join(edir, f"{pid}.json")
     n = merged["n"]
     cov = {
         "evaluations": int(n),
